@@ -1284,7 +1284,7 @@ def fixup_strided_conv(op: Operation, arch, nng):
         padding, _ = calc_padding_and_skirt(
             op.attrs["padding"],
             op.kernel,
-            ifm_shape,
+            op.ifm_shapes[0],  # the IFM shape as it is now, it may have been re-shaped above
             op.attrs.get("explicit_padding"),
         )
         # Use explicit padding so it is not recalculated later with the wrong kernel stride
